@@ -2,8 +2,10 @@
 #![allow(dead_code)]
 mod codec;
 mod common;
+mod craft;
 mod e1;
 mod sim;
+mod wire;
 
 use common::*;
 
@@ -22,6 +24,8 @@ fn main() {
                 finish(e1::check(&args))
             }
         }
+        "C07" => finish(wire::check_c07(&args)),
+        "C08" => finish(wire::check_c08(&args)),
         other => {
             eprintln!("no check for {other}");
             2
